@@ -209,13 +209,13 @@ macro_rules! def_rle_raw {
             let lists = RangeLists::new(DebugRanges::from(FixLeb::<LittleEndian, $k>::new(&[], e)), DebugRngLists::from(FixLeb::<LittleEndian, $k>::new(&buf[..], e)));
             let mut it = lists.raw_ranges(RangeListsOffset(0), enc).unwrap();
             let got = it.next();
+            kani::cover!(got.is_ok() || kind > 7);
             let mut c = Cur { buf: &buf[..], pos: 1, big: false };
             let want_none;
             match kind {
                 0 => {
                     assert!(matches!(got, Ok(None)));
                     assert!(matches!(it.next(), Ok(None)));
-                    kani::cover!(true);
                     return;
                 }
                 1 => {
@@ -277,7 +277,6 @@ macro_rules! def_rle_raw {
                     assert!(matches!(it.next(), Ok(None)), "iterator yields nothing after an error");
                 }
             }
-            kani::cover!(got.is_ok() || kind > 7);
         }
     };
 }
@@ -348,6 +347,7 @@ fn $fname(kind: u8, version: u16) {
         lists.raw_locations_dwo(LocationListsOffset(0), enc).unwrap()
     };
     let got = it.next();
+    kani::cover!(got.is_ok() || kind > 8);
     // reference decode
     let mut c = Cur { buf: &buf[..], pos: 1, big: false };
     let data = |c: &mut Cur| -> Option<(usize, usize)> {
@@ -361,7 +361,6 @@ fn $fname(kind: u8, version: u16) {
     match kind {
         0 => {
             assert!(matches!(got, Ok(None)));
-            kani::cover!(true);
             return;
         }
         1 => {
@@ -432,7 +431,6 @@ fn $fname(kind: u8, version: u16) {
             assert!(matches!(it.next(), Ok(None)), "iterator yields nothing after an error");
         }
     }
-    kani::cover!(got.is_ok() || kind > 8);
 }
     };
 }
